@@ -138,6 +138,8 @@ def sched_parts(pid: str, tier: str):
         mons = ("C08",)
         mk("whole-run-N3", Cfg(N=3, resources="tma", sym_prio=True, routes="dact", monitors=mons), base_req, 600)
         mk("whole-run-N4-threads", Cfg(N=4, resources="t", sym_prio=True, monitors=mons), base_req, 600, 10)
+        # the first node may be a setup node that this call still has to compute: it is scheduled with the others
+        mk("whole-run-N3-setup-node", Cfg(N=3, resources="t", sym_prio=True, sym_seq=False, setup_first=True, monitors=mons), base_req + ["w_setup_node_in_call"], 600)
         # a descendant reached along two paths below a node that competes with two independent nodes
         mk("whole-run-N5-reconverging", Cfg(N=5, resources="t", sym_prio=True, fixed_shapes=(((), (), (), (2,), (2, 3)),), monitors=mons), base_req, 600, 8)
         # the AsyncDAG flavour: same scheduler, but the limit reaches it through another constructor
